@@ -10,9 +10,18 @@ Import ListNotations.
 Inductive qcall :=
 | QFit (X Y : tensor Q) (itape : list (tensor Q * list (tensor Q))) (btape : list (list Q))
 | QFitTransform (X Y : tensor Q) (itape : list (tensor Q * list (tensor Q))) (btape : list (list Q))
+(* a fit during which the lstsq call of component c raises (injected LinAlgError) *)
+| QFitRaise (c : nat) (X Y : tensor Q) (itape : list (tensor Q * list (tensor Q))) (btape : list (list Q))
 | QPredict (X : tensor Q)
 | QTransform (X : tensor Q) (Yo : option (tensor Q))
 | QSetParams (ncomp n_iter : nat) (tol : Q).
+
+(* the data of one regressor fit call of a sequence, for the model's own fit loop: CP (tol, reg_W, rank, output shape, X, y, replayed
+   initial factors, tape of iterates) / Tucker (tol, reg_W, X, y, replayed initial core and factors, tape) / a call that raised *)
+Inductive fitd :=
+| FDcp (tol reg : Q) (R : nat) (so : list nat) (X y : tensor Q) (W0 : list (tensor Q)) (tape : list (list (tensor Q)))
+| FDtk (tol reg : Q) (X y : tensor Q) (G0 : tensor Q) (W0 : list (tensor Q)) (tape : list (tensor Q * list (tensor Q)))
+| FDraise.
 
 Inductive kase :=
 | KPredCPZ (W X : tensor Z) (expected : res (tensor Z))
@@ -58,6 +67,10 @@ Inductive kase :=
    same fit (None: that fit raised); expected = what each call on the ONE re-used object returned *)
 | KRegSeq (cp : bool) (p0 : nat * list Q) (fits : list (option (tensor Q * list (tensor Q))))
           (calls : list (rcall (F:=Q) (Prm:=nat * list Q) (D:=nat))) (expected : list (rout (F:=Q) (Prm:=nat * list Q)))
+(* the same with every fit of the sequence computed by the MODEL's fit loop (concrete ridge blocks, certified T.solve answers from a
+   tape of iterates, replayed initial factors) with the n_iter_max in force, in fixed point *)
+| KRegSeqZ (p0 : nat * list Q) (fits : list fitd)
+           (calls : list (rcall (F:=Q) (Prm:=nat * list Q) (D:=nat))) (expected : list (rout (F:=Q) (Prm:=nat * list Q)))
 (* one CP_PLSR object under a sequence of calls (validation, attributes, call-time n_components); each fit call carries the
    answers of initialize_cp / lstsq recorded from a fresh object's identical fit *)
 | KPlsrSeq (ncomp n_iter : nat) (tol : Q) (calls : list qcall) (expected : list (pout (F:=Q)))
@@ -195,6 +208,35 @@ Definition rout_close (a e : rout (F:=Q) (Prm:=RPrm)) : bool :=
   | _, _ => false
   end.
 
+(* the regressor objects with the model's own fit: attributes = (weight_tensor_, vec_W_; is it a CP regressor) *)
+Definition ZSt := (tensor Z * res (tensor Z) * bool)%type.
+Definition seqz_fit (fits : list fitd) (p : RPrm) (d : nat) : res ZSt :=
+  match nth d fits FDraise with
+  | FDcp tol reg R so X y W0 tape =>
+      match cp_loop_run (fst p) tol reg R so X y W0 tape with
+      | Ok r => Ok (r_weight_tensor (rf_stored r), r_vec (rf_stored r), true)
+      | Err => Err
+      end
+  | FDtk tol reg X y G0 W0 tape =>
+      match tk_loop_run (fst p) tol reg X y G0 W0 tape with
+      | Ok r => Ok (r_weight_tensor (rf_stored r), r_vec (rf_stored r), false)
+      | Err => Err
+      end
+  | FDraise => Err
+  end.
+Definition seqz_predict (st : ZSt) (X : tensor Z) : res (tensor Z) :=
+  if snd st then predict_cp Zfx (fst (fst st)) X else rbind (snd (fst st)) (fun v => predict_tucker Zfx v X).
+Definition call_to_fx (c : rcall (F:=Q) (Prm:=RPrm) (D:=nat)) : rcall (F:=Z) (Prm:=RPrm) (D:=nat) :=
+  match c with RFit d => RFit d | RPredict X => RPredict (t_to_fx X) | RSetParams p => RSetParams p | RGetParams => RGetParams end.
+Definition routz_close (a : rout (F:=Z) (Prm:=RPrm)) (e : rout (F:=Q) (Prm:=RPrm)) : bool :=
+  match a, e with
+  | OSelf, OSelf => true
+  | ORaise, ORaise => true
+  | OTensor t, OTensor u => qt_close ftol ftol (t_of_fx t) u
+  | OParams p, OParams q => prm_eqb p q
+  | _, _ => false
+  end.
+
 (* ---- the CP_PLSR object ---- *)
 Definition fx_init itape := fun Z => map t_to_fx (init_of itape (t_of_fx Z)).
 Definition fx_solve btape := fun (G : list (list Z)) (b : list Z) => map to_fx (solve_of btape G b).
@@ -205,6 +247,12 @@ Fixpoint plsr_seq (o : pobj (F:=Z)) (cs : list qcall) : list (pout (F:=Z)) :=
       let s := match c with
                | QFit X Y it bt => pstep Zfx zsqrt (fx_init it) (fx_solve bt) o (PFit (t_to_fx X) (t_to_fx Y))
                | QFitTransform X Y it bt => pstep Zfx zsqrt (fx_init it) (fx_solve bt) o (PFitTransform (t_to_fx X) (t_to_fx Y))
+               | QFitRaise c X Y it bt =>
+                   match plsr_fit_entry_raising Zfx zsqrt (fx_init it) (fx_solve bt) c (po_prm o) (t_to_fx X) (t_to_fx Y) with
+                   | FitRaiseClean => (o, PRaise)
+                   | FitRaisePartial a => (mkPobj (po_prm o) (Some a), PRaise)
+                   | FitOk a => (mkPobj (po_prm o) (Some a), PSelf)
+                   end
                | QPredict X => pstep Zfx zsqrt (fx_init []) (fx_solve []) o (PPredict (t_to_fx X))
                | QTransform X Yo => pstep Zfx zsqrt (fx_init []) (fx_solve []) o
                                       (PTransform (t_to_fx X) (match Yo with Some Y => Some (t_to_fx Y) | None => None end))
@@ -246,6 +294,8 @@ Definition agree_k (k : kase) : bool :=
       if plsr_same lo hi then plsr_close lo e_loads e_scores e_yloads e_yscores else true
   | KRegSeq cp p0 fits calls expected =>
       all2 rout_close (snd (rrun (seq_fit cp fits) (seq_predict cp) (mkRobj p0 None) calls)) expected
+  | KRegSeqZ p0 fits calls expected =>
+      all2 routz_close (snd (rrun (seqz_fit fits) seqz_predict (mkRobj p0 None) (map call_to_fx calls))) expected
   | KPlsrSeq ncomp n_iter tol calls expected =>
       all2 pout_close (plsr_seq (mkPobj (mkPprm ncomp n_iter (to_fx tol)) None) calls) expected
   | KCpLoop n_iter tol reg R so X y W0 tape eW efs e_nit e_norms =>
